@@ -38,7 +38,7 @@ CR2 = [[3.0, 0, 1, 2], [0, 2, 2, 2], [1, 5, 0, 1], [2, 2, 3, 0], [4, 1, 1, 1]]
 AX1 = [[0.0, 1], [1, 0], [1, 1], [0, 0], [2, 1], [1, 2], [2, 2]]
 AX2 = [[1.0, 1], [0, 2], [2, 0], [1, 0], [0, 1], [2, 2], [0, 0]]
 
-CONFIGS = ["TO_dp", "TO_eo", "EG_dp", "EG_eo_nu", "EG_bgl", "GS_dp", "GS_bgl", "CR_1", "CR_2", "CR_df", "ADV_clf", "ADV_reg"]
+CONFIGS = ["TO_dp", "TO_eo", "EG_dp", "EG_eo_nu", "EG_bgl", "EG_long", "GS_dp", "GS_bgl", "CR_1", "CR_2", "CR_df", "ADV_clf", "ADV_reg"]
 
 
 def bounds(tier, seed):
@@ -75,6 +75,8 @@ def make(cfg):
         return red.ExponentiatedGradient(ExactLearner(), red.DemographicParity(difference_bound=0.1), eps=0.05, max_iter=8)
     if cfg == "EG_eo_nu":
         return red.ExponentiatedGradient(ExactLearner(), red.EqualizedOdds(difference_bound=0.1), eps=0.3, max_iter=6, nu=0.01, eta0=1.5)
+    if cfg == "EG_long":  # many iterations without the LP step: reaches the regret check / learning-rate shrink branch
+        return red.ExponentiatedGradient(ExactLearner(), red.ErrorRateParity(difference_bound=0.01), eps=0.05, nu=1e-6, max_iter=30, run_linprog_step=False, eta0=2.0)
     if cfg == "EG_bgl":  # regression moment: predict draws one stored predictor per row
         from mc.stubs import MeanRegressor
         return red.ExponentiatedGradient(MeanRegressor(), red.BoundedGroupLoss(red.SquareLoss(0, 1), upper_bound=0.05), eps=0.2, max_iter=10, run_linprog_step=False)
@@ -113,6 +115,9 @@ def do_fit(cfg, est, which):
             y = y * 0.37 + np.arange(7) * 0.05
         A = np.array(list("abababa" if which == 1 else "aabbaba"))
         return est.fit(X, y, sensitive_features=A)
+    if cfg == "EG_long":  # data on which 30 EG iterations do not converge and the best gap stagnates (found by scanning, see DESIGN section 5)
+        rows = [[0, "a", 0], [0, "a", 0], [0, "b", 1], [1, "b", 0], [2, "c", 1]] if which == 1 else [[0, "a", 0], [0, "a", 0], [0, "b", 1], [1, "c", 1], [2, "b", 0]]
+        return est.fit(np.array([[r[0]] for r in rows], float), np.array([r[2] for r in rows]), sensitive_features=np.array([r[1] for r in rows]))
     X = np.array(X1 if which == 1 else X2)
     y = np.array(Y1 if which == 1 else Y2)
     if cfg == "GS_bgl":
